@@ -1198,6 +1198,15 @@ func TestVerifSyncClient(t *testing.T) {
 	if os.Getenv("VERIF_ONLY") == "repair-abort" { // light entry point (also used by the C02 engine)
 		scs = vscRepairAbortScenarios()
 	}
+	if os.Getenv("VERIF_ONLY") == "repair" { // light entry point of the C01 engine: every directed chain-repair scenario
+		scs = nil
+		for _, sc := range vscBuiltin(quick) {
+			if sc.Mode == "repair" {
+				scs = append(scs, sc)
+			}
+		}
+		scs = append(scs, vscRepairAbortScenarios()...)
+	}
 	for i, sc := range scs {
 		vscRunScenario(t, tr, sc, seed*1000+int64(i))
 	}
